@@ -39,13 +39,13 @@ func (p Plain) String() string {
 }
 
 type Step struct {
-	Kind int   `json:"kind"`
+	Kind int    `json:"kind"`
 	Name string `json:"name"`
-	Kid  *Node `json:"kid,omitempty"`
-	Body *Node `json:"body,omitempty"`
-	P    Plain `json:"p"`
-	Fail bool  `json:"fail,omitempty"`
-	K    int   `json:"k"`
+	Kid  *Node  `json:"kid,omitempty"`
+	Body *Node  `json:"body,omitempty"`
+	P    Plain  `json:"p"`
+	Fail bool   `json:"fail,omitempty"`
+	K    int    `json:"k"`
 }
 
 type Node struct {
@@ -186,7 +186,7 @@ func init() {
 	add := func(fam string, n, mode int, op string) {
 		e := entry{Fam: fam, N: n, Mode: mode, Op: op}
 		k, b, _ := shape(e)
-		e.Leaf = k == 0 && len(b) == 0 && fam != "Applicative" && fam != "Chain"
+		e.Leaf = k == 0 && len(b) == 0 && fam != "Applicative" && fam != "Chain" && fam != "Sequence" && fam != "SequenceIterator"
 		entries = append(entries, e)
 	}
 	for _, f := range []string{"Map", "Lift", "Replace", "FlatMap", "Transform", "TransformWith", "Map2", "Zip", "Zip3", "Ap", "ApFunc", "FlapMap", "FlatFlapMap", "ComposeOption", "ComposeTry", "ComposePure", "SequenceIterator", "Traverse", "TraverseSeq", "TraverseSlice", "TraverseFunc", "TraverseSeqFunc", "TraverseSliceFunc", "FlatMapTraverseSeq", "FlatMapTraverseSlice", "Apply", "Apply2"} {
@@ -273,12 +273,15 @@ type gen struct {
 	r      *rand.Rand
 	nsrc   int
 	nextID int
-	maxN   int
+	nused  int
 }
 
 func genTree(r *rand.Rand, root entry, maxSize int) *Tree {
-	g := &gen{r: r, nsrc: 1 + r.IntN(4), maxN: 9}
+	g := &gen{r: r, nsrc: 1 + r.IntN(4)}
 	budget := 1 + r.IntN(maxSize)
+	if budget < 2 && r.IntN(4) != 0 {
+		budget = 2
+	}
 	n := g.fromEntry(root, budget, 0)
 	// renumber the sources actually used to 0..m-1 in order of first use
 	remap := map[int]int{}
@@ -324,19 +327,27 @@ func (g *gen) leaf(depth int) *Node {
 	g.nextID++
 	x := g.r.IntN(100)
 	switch {
-	case x < 58 || (depth == 0 && x < 68):
-		n.Fam, n.K = "src", g.r.IntN(g.nsrc)
-		n.Op = "src"
-	case x < 68:
+	case x < 62 || (depth == 0 && x < 72):
+		// prefer a source not used so far, so that trees really depend on several sources
+		n.Fam, n.Op = "src", "src"
+		if g.nused < g.nsrc && (g.nused == 0 || g.r.IntN(4) != 0) {
+			n.K = g.nused
+			g.nused++
+		} else {
+			n.K = g.r.IntN(g.nused)
+		}
+	case x < 72:
 		n.Fam, n.K, n.Op = "arg", g.r.IntN(depth), "arg"
-	case x < 76:
+	case x < 79:
 		n.Fam, n.K, n.Op = "Successful", 1+g.r.IntN(9), "future.Successful"
-	case x < 84:
+	case x < 86:
 		n.Fam, n.K, n.Op = "Failed", 4+g.r.IntN(4), "future.Failed"
 	default:
 		e := leafEntries[g.r.IntN(len(leafEntries))]
 		g.nextID--
-		return g.fromEntry(e, 1, depth)
+		l := g.fromEntry(e, 1, depth)
+		l.size = 0
+		return l
 	}
 	return n
 }
